@@ -4,7 +4,7 @@ import glob, os
 
 _HERE = os.path.dirname(os.path.abspath(__file__))
 PROPS = {}
-for _f in sorted(glob.glob(os.path.join(_HERE, "c[0-9][0-9]", "prop.py"))):
+for _f in sorted(glob.glob(os.path.join(_HERE, "c[0-9][0-9]*", "prop.py"))):
     _ns = {}
     try:
         exec(compile(open(_f).read(), _f, "exec"), _ns)
